@@ -77,8 +77,8 @@ def main(argv):
         print(__doc__)
         return 3
     pid = argv[0].upper()
-    if argv[1] == "--replay":
-        return do_replay(pid, argv[2])
+    if "--replay" in argv:
+        return do_replay(pid, argv[argv.index("--replay") + 1])
     tier = argv[1]
     if tier not in ("quick", "thorough"):
         print(__doc__)
